@@ -252,11 +252,34 @@ impl Span {
     }
 }
 
-#[derive(Debug, PartialEq)]
+#[derive(Debug)]
 pub(crate) enum SpanInfo {
     Prim(Span),
     Cons(Span, Box<[SpanInfo; 2]>),
     Vec(Span, Vec<SpanInfo>),
+}
+
+impl PartialEq for SpanInfo {
+    /// Compares the chains of `cdr` infos of two lists iteratively.
+    fn eq(&self, other: &Self) -> bool {
+        let (mut a, mut b) = (self, other);
+        loop {
+            match (a, b) {
+                (SpanInfo::Prim(span_a), SpanInfo::Prim(span_b)) => return span_a == span_b,
+                (SpanInfo::Vec(span_a, elements_a), SpanInfo::Vec(span_b, elements_b)) => {
+                    return span_a == span_b && elements_a == elements_b
+                }
+                (SpanInfo::Cons(span_a, info_a), SpanInfo::Cons(span_b, info_b)) => {
+                    if span_a != span_b || info_a[0] != info_b[0] {
+                        return false;
+                    }
+                    a = &info_a[1];
+                    b = &info_b[1];
+                }
+                _ => return false,
+            }
+        }
+    }
 }
 
 impl Clone for SpanInfo {
